@@ -7,5 +7,6 @@ CONSTANTS
   MaxReap = 2
   Faults = TRUE
   SplitGet = FALSE
+  TouchOutside = FALSE
 VIEW View
-INVARIANTS TypeOK OneTransportPerName CallersShareTheCachedTransport SameNameSameTransport IdentitiesNeverReused NeverHalfInitialised BoundedRetries OnlyAgedAreReaped
+INVARIANTS TypeOK OneTransportPerName CallersShareTheCachedTransport SameNameSameTransport IdentitiesNeverReused NeverHalfInitialised ReaperNeverMeetsAnUnstampedTransport BoundedRetries OnlyAgedAreReaped
